@@ -1,7 +1,7 @@
 #!/bin/sh
 # usage: tools/try_patch.sh <patch.diff> <CHECK-ID>...   -- run checks against a scratch worktree with the patch applied (never /repo)
 set -e
-P="$1"; shift
+P="$(readlink -f "$1")"; shift
 WT=/tmp/wt_try_$$
 git -C /repo worktree add -q --detach "$WT" HEAD
 trap 'git -C /repo worktree remove --force "$WT" >/dev/null 2>&1; git -C /repo worktree prune' EXIT
